@@ -379,4 +379,118 @@ theorem refreshAllS_bound {s s' : SState} {order : List (AccKey × Nat)} {k : Ac
     · rw [hbc, hlen]; push_cast
       linarith
 
+
+/-! ## the epoch entry points -/
+
+/-- `epochOS` / `epochS` with a full multiplier update run the refresh loop from the state with the new multipliers. -/
+theorem epochOS_refresh {s s' : SState} {ups : List (Nat × Int × Int × Bool)} {order : List AccKey} {b1 : State}
+    (hc : epochOS s ups order = .ok s') (h1 : updateMults s.b ups = .ok (b1, true)) :
+    refreshAllS { s with b := b1 } (order.map fun k => (k, 0)) = .ok s' := by
+  obtain ⟨_, b1', full, h1', _, hf, _⟩ := epochOS_ok hc
+  rw [h1] at h1'
+  injection h1' with h1'
+  injection h1' with e1 e2
+  subst e1; subst e2
+  exact hf rfl
+
+theorem epochS_refresh {s s' : SState} {ups : List (Nat × Int × Int × Bool)} {b1 : State}
+    (hc : epochS s ups = .ok s') (h1 : updateMults s.b ups = .ok (b1, true)) :
+    refreshAllS { s with b := b1 } s.b.accs = .ok s' := by
+  obtain ⟨b1', full, h1', _, hf, _⟩ := epochS_ok hc
+  rw [h1] at h1'
+  injection h1' with h1'
+  injection h1' with e1 e2
+  subst e1; subst e2
+  exact hf rfl
+
+/-! ## establishing the share invariant on a concrete state -/
+
+theorem sumSh_erase {k : Stk} {a : AccKey} : ∀ (L : List AccKey), a ∈ L → sumSh k L = shOf k a + sumSh k (L.erase a)
+  | [], h => by cases h
+  | x :: r, h => by
+    by_cases hx : x = a
+    · subst hx; simp [sumSh]
+    · have hr : a ∈ r := by
+        rcases List.mem_cons.mp h with h | h
+        · exact absurd h.symm hx
+        · exact h
+      rw [List.erase_cons_tail (by simpa using hx)]
+      unfold sumSh
+      rw [sumSh_erase r hr]
+      omega
+
+/-- the delegations outside the list `A` are empty, those in `A` non-negative: every duplicate-free list of accounts
+holds at most what `A` holds. -/
+theorem sumSh_le_support {k : Stk} : ∀ (A : List AccKey), (∀ x, x ∈ A → 0 ≤ shOf k x) →
+    ∀ (L : List AccKey), L.Nodup → (∀ x, x ∈ L → x ∉ A → shOf k x = 0) → sumSh k L ≤ sumSh k A
+  | [], _, L, _, h0 => by
+    have : ∀ (L : List AccKey), (∀ x, x ∈ L → shOf k x = 0) → sumSh k L = 0 := by
+      intro L
+      induction L with
+      | nil => intro _; rfl
+      | cons x r ih =>
+        intro h
+        unfold sumSh
+        rw [h x (List.mem_cons_self ..), ih (fun y hy => h y (List.mem_cons_of_mem _ hy))]
+        rfl
+    rw [this L (fun x hx => h0 x hx (by simp))]
+    exact Int.le_refl _
+  | a :: A', hnn, L, hnd, h0 => by
+    have hnn' : ∀ x, x ∈ A' → 0 ≤ shOf k x := fun x hx => hnn x (List.mem_cons_of_mem _ hx)
+    by_cases ha : a ∈ L
+    · rw [sumSh_erase L ha]
+      have := sumSh_le_support A' hnn' (L.erase a) (hnd.erase a) (by
+        intro x hx hxA
+        have hxL : x ∈ L := List.mem_of_mem_erase hx
+        have hxa : x ≠ a := by
+          intro h; subst h
+          exact (List.Nodup.not_mem_erase hnd) hx
+        apply h0 x hxL
+        intro hc
+        rcases List.mem_cons.mp hc with hc | hc
+        · exact hxa hc
+        · exact hxA hc)
+      show _ ≤ shOf k a + sumSh k A'
+      omega
+    · have := sumSh_le_support A' hnn' L hnd (by
+        intro x hx hxA
+        apply h0 x hx
+        intro hc
+        rcases List.mem_cons.mp hc with hc | hc
+        · subst hc; exact ha hx
+        · exact hxA hc)
+      have := hnn a (List.mem_cons_self ..)
+      show _ ≤ shOf k a + sumSh k A'
+      omega
+
+/-- a checkable sufficient condition for `ShareInvV`: all delegation records are among the accounts `A`, all shares are
+non-negative, and `A`'s shares together fit into the validator's. -/
+theorem shareInvV_of_support {k : Stk} {v : Nat} (A : List AccKey) (hnn : ∀ x, x ∈ A → 0 ≤ shOf k x)
+    (hsupp : ∀ x, x ∉ A → k.dsh x = none) (hsum : sumSh k A ≤ (k.val v).shares) : ShareInvV k v := by
+  have h0 : ∀ x, x ∉ A → shOf k x = 0 := by intro x hx; unfold shOf; rw [hsupp x hx]
+  constructor
+  · intro x _
+    by_cases hx : x ∈ A
+    · exact hnn x hx
+    · rw [h0 x hx]
+  · intro L hnd _
+    exact Int.le_trans (sumSh_le_support A hnn L hnd (fun x _ hxA => h0 x hxA)) hsum
+
+/-- success of a call as a `Bool` (states contain functions: results are compared through projections). -/
+def okS {α : Type} (r : Except Err α) : Bool :=
+  match r with
+  | .ok _ => true
+  | .error _ => false
+
+theorem okS_ok {α : Type} {r : Except Err α} (h : okS r = true) : ∃ x, r = .ok x := by
+  cases r with
+  | ok x => exact ⟨x, rfl⟩
+  | error e => cases h
+
+
+theorem ok_of_toOption {α : Type} {r : Except Err α} {x : α} (h : r.toOption = some x) : r = .ok x := by
+  cases r with
+  | ok y => simp [Except.toOption] at h; rw [h]
+  | error e => simp [Except.toOption] at h
+
 end OsmoVerif.Superfluid
